@@ -19,6 +19,7 @@ bde83d7 C17
 a91d27e C17
 199f3bd C11
 386bda6 C15
+473ad6d C08
 MAP
 for m in mutants/${1:-*}; do
   b=$(basename $m); b=${b%.*}
